@@ -7,7 +7,8 @@ PROTOS = ['gs1', 'gs2', 'gs3']
 
 
 def more(tier, seed, w, v, lay, tp):
-    return [], []
+    """QuakeText.tla (kind gs1): the backslash variables grammar, every short fragment through gamespy::one::query_vars"""
+    return quake_text(PID, tier, w, v)
 
 
 def run(tier, seed):
